@@ -18,6 +18,7 @@ SimNext == \/ MuxStep /\ UNCHANGED hist
                                 \/ ERemove(u) /\ Log(Rec("Remove", 0, u, 0))
            \/ \E i \in Ids, c \in Clients : EReply(i, c) /\ Log(Rec("Reply", c, "", HandleOf(i)))
            \/ EClose /\ Log(Rec("Close", 0, "", 0))
+           \/ EClose2 /\ Log(Rec("Close", 0, "", 0))
            \/ EAdvance /\ Log(Rec("Advance", 0, "", 0))
 SimSpec == SimInit /\ [][SimNext]_<<vars, hist>>
 \* prints the history wherever a watcher goroutine has removed a packet conn that was not its own
